@@ -26,7 +26,9 @@ EXTENDS RingMerge, Json
 
 CONSTANTS TsSet, LiveSt,
           MaxUpd,     \* a delivered update mentions at most MaxUpd instances
-          MaxClock    \* the replica's clock runs 1..MaxClock
+          MaxClock,   \* the replica's clock runs 1..MaxClock
+          ThinK, ThinR \* of the transitions that resolve a collision, those numbered ThinR modulo ThinK are
+                      \* emitted as behaviours for the harness as well (ThinK = 0: none)
 
 VARIABLES d,       \* the replica's descriptor (tombstones included)
           clock,   \* its clock (seconds)
@@ -48,7 +50,8 @@ Step(act, o, cs) ==
     /\ d' = m.result
     /\ last' = [act |-> act, other |-> o, cas |-> cs, now |-> clock, pre |-> m.pre, resolved |-> m.resolved]
     /\ hist' = Append(hist, [act |-> act, other |-> JDesc(o), cas |-> cs, now |-> clock,
-                             post |-> JDesc(m.result), nil |-> m.change.nil, change |-> JDesc(m.change.d)])
+                             post |-> JDesc(m.result), nil |-> m.change.nil, change |-> JDesc(m.change.d),
+                             resolved |-> m.resolved])
     /\ UNCHANGED clock
 
 Deliver(o) == Step("Deliver", o, FALSE)
@@ -66,7 +69,7 @@ Tick == /\ clock < MaxClock
         /\ clock' = clock + 1
         /\ last' = [act |-> "Tick", other |-> Empty, cas |-> FALSE, now |-> clock + 1, pre |-> d, resolved |-> FALSE]
         /\ hist' = Append(hist, [act |-> "Tick", other |-> JDesc(Empty), cas |-> FALSE, now |-> clock + 1,
-                                 post |-> JDesc(d), nil |-> TRUE, change |-> JDesc(Empty)])
+                                 post |-> JDesc(d), nil |-> TRUE, change |-> JDesc(Empty), resolved |-> FALSE])
         /\ UNCHANGED d
 
 Init == /\ d = Empty
@@ -119,7 +122,13 @@ ResolveWithoutTimestamp ==
 NeverResolveWithoutTimestamp == [][~ResolveWithoutTimestamp]_vars   \* expected to be VIOLATED (MC_diverge.cfg)
 
 (* One line per distinct reachable <<d, clock>>: the BFS path that reached  *)
-(* it, with the descriptor the specification demands after every step.      *)
+(* it, with the descriptor the specification demands after every step       *)
+(* (EmitPath), plus a thinned sample of the transitions that resolve a      *)
+(* collision, each with the path to its source state (EmitResolving).       *)
+Thin == ThinK > 0 /\ last'.resolved /\ (Rank(d) + 3 * Rank(last'.other) + clock) % ThinK = ThinR
+EmitResolving ==
+    [][Thin => PrintT(ToJson([kind |-> "path", steps |-> hist',
+                              owner |-> [p \in 1..M |-> Owner(d', p - 1)]]))]_vars
 EmitPath == hist = <<>> \/ PrintT(ToJson([kind |-> "path", steps |-> hist,
                                          owner |-> [p \in 1..M |-> Owner(d, p - 1)]]))
 =============================================================================
